@@ -4,6 +4,7 @@ import (
 	"encoding/hex"
 	"math"
 	"math/rand"
+	"strings"
 )
 
 // ---------------------------------------------------------------------------
@@ -246,6 +247,35 @@ func (g *Gen) probe(field string) Probe {
 	return Probe{T: "nil"}
 }
 
+// absentProbe: a well-typed value no generator ever stores in that field
+func (g *Gen) absentProbe(field string) Probe {
+	switch field {
+	case "A":
+		return Probe{T: "int64", I: 777}
+	case "B":
+		return Probe{T: "uint32", U: 777}
+	case "F":
+		return Probe{T: "float64", F: math.Float64bits(777.5)}
+	case "G":
+		return Probe{T: "float32", F: uint64(math.Float32bits(777.5))}
+	case "S", "Emb.Z", "P.W":
+		return Probe{T: "string", S: hexs("absent-777")}
+	case "Tm":
+		return Probe{T: "time", I: 777}
+	case "I8":
+		return Probe{T: "int8", I: 77}
+	case "U16":
+		return Probe{T: "uint16", U: 777}
+	case "Emb.Y":
+		return Probe{T: "int", I: 777}
+	case "P.X":
+		return Probe{T: "uint64", U: 777}
+	case "P.Q.D":
+		return Probe{T: "int16", I: 777}
+	}
+	return Probe{T: "int64", I: 777}
+}
+
 var cmps = []string{"=", "!=", "<", "<=", ">", ">=", "~="}
 var patterns = []string{"a", "^a", "b$", "^ab$", "B", "", "^", "é", "(", "[a", "A", "^A", "bc"}
 
@@ -354,7 +384,11 @@ func (g *Gen) add(op Op) {
 		} else {
 			op.Alt = g.alt.Intn(2)
 		}
-	case "sdel", "delall", "many", "bulk", "aidx":
+	case "aidx":
+		if op.Alt == 0 {
+			op.Alt = g.alt.Intn(2)
+		}
+	case "sdel", "delall", "many", "bulk":
 		op.Alt = g.alt.Intn(2)
 	}
 	g.ops = append(g.ops, op)
@@ -419,7 +453,7 @@ func asyncHistory(p *Profile, seed int64) []Op {
 	g := &Gen{r: rand.New(rand.NewSource(seed)), alt: rand.New(rand.NewSource(seed ^ 0x5eed5eed)), p: p, usedK: map[int]bool{}}
 	r := g.r
 	g.cons = g.genCons()
-	g.add(Op{Op: "open", Shadow: seed%2 == 1})
+	g.add(Op{Op: "open", Shadow: seed%2 == 1, Lower: seed%5 == 0})
 	byTimeout := r.Intn(2) == 0
 	thr, ms := 2+r.Intn(3), 3600*1000
 	if byTimeout {
@@ -781,8 +815,94 @@ func History(p *Profile, seed int64) []Op {
 				if op.AThr > 0 {
 					op.AThr++ // another threshold, still never reached
 				}
+			case 3:
+				// the compression flag of an EXISTING collection is not the caller's to change:
+				// Create must go on reading and writing the files as they are named
+				op.Gz = !op.Gz
 			}
 			g.add(op)
+			g.lastCreate.Gz = g.gz
+		case "cachetoggle":
+			// caching that exists only because of asynchronous writes, switched off and on again
+			// around an update and a delete
+			on := g.lastCreate
+			if on.Op == "" {
+				continue
+			}
+			on.Cache = false
+			on.AThr, on.AMs = 1000, 3600*1000
+			off := on
+			off.AThr, off.AMs = 0, 0
+			g.add(on)
+			g.async = true
+			k1, k2 := g.pickK(60), g.pickK(60)
+			sp1, sp2 := g.spec(k1), g.spec(k2)
+			g.add(Op{Op: "ins", Spec: &sp1})
+			g.add(Op{Op: "ins", Spec: &sp2})
+			g.add(Op{Op: "get", K: k1})
+			g.add(off)
+			sp3 := g.spec(k1)
+			g.add(Op{Op: "ins", Spec: &sp3})
+			g.add(Op{Op: "del", K: k2})
+			g.add(on)
+			g.add(Op{Op: "get", K: k1})
+			g.add(Op{Op: "getu", K: k2})
+			g.add(Op{Op: "all"})
+		case "orabsent":
+			// a union whose second term matches nothing, on a unique field when there is one; then
+			// the index moves; then the union is collected
+			f := g.field()
+			for _, c := range g.cons {
+				if strings.Contains(c.C, "u") && castOf(c.Path) != "-" {
+					f = c.Path
+				}
+			}
+			f1 := g.field()
+			cmp1, pr1 := g.cmpAndProbe(f1)
+			g.nextSid++
+			base := g.nextSid
+			g.sids = append(g.sids, base)
+			g.add(Op{Op: "search", Sid: base, Field: f1, Cmp: cmp1, Probe: &pr1})
+			pr := g.absentProbe(f)
+			g.nextSid++
+			u := g.nextSid
+			g.sids = append(g.sids, u)
+			g.add(Op{Op: "or", Sid: u, Old: base, Field: f, Cmp: "=", Probe: &pr})
+			g.add(Op{Op: "del", K: g.pickK(0)})
+			sp := g.spec(g.pickK(80))
+			g.add(Op{Op: "ins", Spec: &sp})
+			g.add(Op{Op: "collect", Sid: u})
+			g.add(Op{Op: "control"})
+		case "ortwice":
+			// two unions built from the SAME base search: the second must not disturb the first
+			f := g.field()
+			cmp, pr := g.cmpAndProbe(f)
+			g.nextSid++
+			base := g.nextSid
+			g.sids = append(g.sids, base)
+			g.add(Op{Op: "search", Sid: base, Field: f, Cmp: cmp, Probe: &pr})
+			var made []int
+			for i := 0; i < 2; i++ {
+				f2 := g.field()
+				cmp2, pr2 := g.cmpAndProbe(f2)
+				g.nextSid++
+				made = append(made, g.nextSid)
+				g.sids = append(g.sids, g.nextSid)
+				g.add(Op{Op: []string{"or", "or", "and"}[r.Intn(3)], Sid: g.nextSid, Old: base, Field: f2, Cmp: cmp2, Probe: &pr2})
+			}
+			for _, sid := range append(made, base) {
+				g.add(Op{Op: "len", Sid: sid})
+				g.add(Op{Op: "collect", Sid: sid})
+			}
+		case "aidxpoll":
+			// an index polled into the same slice before and after the collection shrank
+			f := g.field()
+			g.add(Op{Op: "aidx", Field: f, Alt: 2})
+			g.add(Op{Op: "del", K: g.pickK(0)})
+			if r.Intn(2) == 0 {
+				g.add(Op{Op: "del", K: g.pickK(0)})
+			}
+			g.add(Op{Op: "aidx", Field: f, Alt: 2})
 		case "oidreuse":
 			// an object is stored, found by a search, deleted; something that could make the
 			// database forget which ids it has handed out happens; a new object is stored; the
@@ -919,12 +1039,12 @@ var profiles = map[string]*Profile{
 	// C01: CRUD refinement, every configuration
 	"crud": {Name: "crud", Shadow: true, Len: [2]int{10, 40}, MaxK: 8, PIndex: 35, PUnique: 8, PUpper: 15, PLower: 15,
 		PCache: 50, PAsync: 30, PGz: 30, PLowerDir: 30, PExt: 30, PBadInput: 6, SweepEvery: 6, NoHostile: true,
-		Weights: map[string]int{"ins": 30, "many": 6, "bulk": 4, "del": 10, "delall": 1, "get": 10, "exist": 4, "count": 2, "all": 3, "recreatec": 2,
+		Weights: map[string]int{"ins": 30, "many": 6, "bulk": 4, "del": 10, "delall": 1, "get": 10, "exist": 4, "count": 2, "all": 3, "recreatec": 2, "cachetoggle": 1,
 			"search": 4, "sdel": 3, "reopen": 4, "flush": 2}},
 	// C02: query trees over all fields and operators
 	"search": {Name: "search", Len: [2]int{15, 50}, MaxK: 14, PIndex: 50, PUnique: 3, PUpper: 10, PLower: 10,
 		PCache: 30, PAsync: 15, PGz: 10, PLowerDir: 10, PExt: 10, SweepEvery: 12, SearchSweep: true, NoHostile: true,
-		Weights: map[string]int{"ins": 30, "many": 4, "del": 8, "search": 20, "refine": 20, "collect": 20, "sdel": 3, "reopen": 3, "control": 3, "count": 1, "recreatec": 2}},
+		Weights: map[string]int{"ins": 30, "many": 4, "del": 8, "search": 20, "refine": 20, "collect": 20, "sdel": 3, "reopen": 3, "control": 3, "count": 1, "recreatec": 2, "ortwice": 5}},
 	// C03: uniqueness, tiny alphabets so that conflicts are frequent
 	"unique": {Name: "unique", Len: [2]int{15, 45}, MaxK: 7, PIndex: 15, PUnique: 30, PUpper: 20, PLower: 20,
 		PCache: 40, PAsync: 25, PGz: 10, PLowerDir: 10, PExt: 10, SweepEvery: 8, NoHostile: true,
@@ -946,13 +1066,13 @@ var profiles = map[string]*Profile{
 		PCache: 40, PAsync: 30, PGz: 10, PLowerDir: 10, PExt: 10, PBadInput: 12, SweepEvery: 3, NoHostile: true,
 		Weights: map[string]int{"ins": 12, "many": 45, "bulk": 30, "del": 8, "reopen": 4, "ls": 3}},
 	// C11: divergence between files and index, Control, Repair
-	"fault": {Name: "fault", Len: [2]int{10, 30}, MaxK: 8, PIndex: 40, PUnique: 6, PUpper: 10, PLower: 10,
+	"fault": {Name: "fault", Shadow: true, Len: [2]int{10, 30}, MaxK: 8, PIndex: 40, PUnique: 6, PUpper: 10, PLower: 10,
 		PCache: 50, PAsync: 0, PGz: 20, PLowerDir: 10, PExt: 20, SweepEvery: 9, SearchSweep: true, NoHostile: true,
 		Weights: map[string]int{"ins": 30, "del": 6, "tamper": 22, "control": 14, "repair": 12, "reopen": 10, "search": 4, "collect": 4, "ls": 3}},
 	// C13: order, reverse, limit, one, AssignIndex
 	"order": {Name: "order", Len: [2]int{15, 45}, MaxK: 16, PIndex: 70, PUnique: 2, PUpper: 10, PLower: 10,
 		PCache: 30, PAsync: 15, PGz: 5, PLowerDir: 5, PExt: 5, SweepEvery: 0, NoHostile: true,
-		Weights: map[string]int{"ins": 35, "many": 6, "del": 6, "search": 18, "refine": 10, "collect": 30, "aidx": 12, "reopen": 3, "recreatec": 2}},
+		Weights: map[string]int{"ins": 35, "many": 6, "del": 6, "search": 18, "refine": 10, "collect": 30, "aidx": 12, "aidxpoll": 4, "reopen": 3, "recreatec": 2}},
 	// C16: case canonicalisation
 	"case": {Name: "case", Len: [2]int{12, 40}, MaxK: 10, PIndex: 40, PUnique: 20, PUpper: 45, PLower: 45,
 		PCache: 30, PAsync: 15, PGz: 5, PLowerDir: 5, PExt: 5, SweepEvery: 8, SearchSweep: true, NoHostile: true,
@@ -965,11 +1085,11 @@ var profiles = map[string]*Profile{
 	// C20: a search is a snapshot: writes between evaluation and collection
 	"snapshot": {Name: "snapshot", Len: [2]int{20, 60}, MaxK: 16, PIndex: 60, PUnique: 3, PUpper: 5, PLower: 5,
 		PCache: 40, PAsync: 20, PGz: 5, PLowerDir: 5, PExt: 5, SweepEvery: 0, NoHostile: true,
-		Weights: map[string]int{"ins": 40, "many": 6, "del": 14, "sdel": 3, "search": 14, "refine": 8, "collect": 22, "recreatec": 3, "delall": 2, "oidreuse": 4}},
+		Weights: map[string]int{"ins": 40, "many": 6, "del": 14, "sdel": 3, "search": 14, "refine": 8, "collect": 22, "recreatec": 3, "delall": 2, "oidreuse": 4, "orabsent": 4}},
 	// C17: schema guard, re-creation, settings switches
 	"guard": {Name: "guard", Shadow: true, Len: [2]int{10, 30}, MaxK: 8, PIndex: 35, PUnique: 10, PUpper: 15, PLower: 15,
 		PCache: 50, PAsync: 50, PGz: 20, PLowerDir: 10, PExt: 30, SweepEvery: 5, NoHostile: true,
-		Weights: map[string]int{"ins": 35, "many": 5, "del": 8, "recreate": 16, "reshape": 8, "reopen": 8, "ls": 6, "get": 6}},
+		Weights: map[string]int{"ins": 35, "many": 5, "del": 8, "recreate": 16, "reshape": 8, "reopen": 8, "ls": 6, "get": 6, "cachetoggle": 3}},
 	// C05: crash points. Synchronous mode and calls whose file operations come in a defined order.
 	"crash": {Name: "crash", Len: [2]int{6, 16}, MaxK: 6, PIndex: 45, PUnique: 10, PUpper: 10, PLower: 10,
 		PCache: 50, PAsync: 35, PGz: 25, PLowerDir: 10, PExt: 20, PBadInput: 5, SweepEvery: 0, NoHostile: true,
@@ -981,7 +1101,7 @@ var profiles = map[string]*Profile{
 	// C12: the same history replayed under two configurations (the check flips the settings)
 	"pairs": {Name: "pairs", Len: [2]int{15, 45}, MaxK: 10, PIndex: 45, PUnique: 12, PUpper: 15, PLower: 15,
 		PCache: 50, PAsync: 40, PGz: 40, PLowerDir: 40, PExt: 40, PBadInput: 10, PWrongProbe: 8, SweepEvery: 10, SearchSweep: true, NoLimit: true,
-		Weights: map[string]int{"ins": 30, "many": 5, "bulk": 2, "del": 8, "search": 16, "refine": 10, "collect": 14, "exist": 6, "get": 4, "count": 2, "all": 2, "sdel": 2, "reopen": 4}},
+		Weights: map[string]int{"ins": 30, "many": 5, "bulk": 2, "del": 8, "search": 16, "refine": 10, "collect": 14, "exist": 6, "get": 4, "count": 2, "all": 2, "sdel": 2, "reopen": 4, "recreatec": 2}},
 	// C10: asynchronous writes in real time (custom generator: asyncHistory)
 	"async": {Name: "async", Len: [2]int{1, 1}, MaxK: 6, PIndex: 40, PUnique: 0, PUpper: 10, PLower: 10, NoHostile: true,
 		Weights: map[string]int{"ins": 1}},
